@@ -83,6 +83,9 @@ def gen(rng, tier):
     from vlib import magic
     for d, tag in magic.variants(rng, bytes(rng.getrandbits(8) for _ in range(5))):
         add("cli.hash_data " + hx(d), ("hash_data", tag), {"via_file": core.input_route(rng)})
+    for d in magic.ENCODED_TEXTS:
+        add("cli.hash_data " + hx(d), ("hash_data", "encoded-text"), {"via_file": core.input_route(rng)})
+        add("cli.hash_message " + hx(d), ("hash_message", "encoded-text"), {"via_file": core.input_route(rng)})
     # JSON documents with a byte-order mark / other marks before or after them: RFC 8259 §8.1 lets a parser ignore a BOM but
     # does not require it; the model (serde_json) refuses, and the spec predicate is silent — only model agreement is checked
     for _ in range(n * 2):
